@@ -8,6 +8,7 @@ import (
 	"os"
 	"path/filepath"
 	"testing"
+	"time"
 
 	"pgregory.net/rapid"
 
@@ -45,6 +46,11 @@ func c09prop(ev *evid.Rec) func(rt *rapid.T) {
 		// how the client's bytes on the transfer connection are cut into segments ("" = one Write per message)
 		seg := rapid.SampledFrom([]string{"", "", "random", "header", "bytes"}).Draw(rt, "segmentation")
 		segSeed := rapid.Uint64().Draw(rt, "segseed")
+		// a slow writer: (fake) seconds pass between the segments of the client's stream; the upload is the same upload
+		gap := time.Duration(0)
+		if seg == "random" || seg == "header" {
+			gap = rapid.SampledFrom([]time.Duration{0, 0, 2 * time.Second, 11 * time.Second, 45 * time.Second}).Draw(rt, "secondsBetweenSegments")
+		}
 		wireName := macRoman(name)
 		comment := []byte(rapid.SampledFrom([]string{"up", "up", ""}).Draw(rt, "comment"))
 		// some clients end the information fork right after the name when there is no comment
@@ -55,6 +61,7 @@ func c09prop(ev *evid.Rec) func(rt *rapid.T) {
 		ntCase := false
 		inWorld(rt, hlsim.Options{Agreement: "a", PreserveResourceForks: preserve, Accounts: []hlsim.AccountSpec{acct("admin", "Admin", "adminpw", allAccess)}}, func(rt *rapid.T, w *hlsim.World) {
 			if seg != "" {
+				w.XferSegGap = gap
 				w.NewSplit = func(kind string) hlsim.Splitter {
 					if kind == "xfer" {
 						return &c02split{mode: seg, seed: segSeed}
